@@ -559,7 +559,7 @@ func init() {
 		RuleText: "hybrid index over all 8 combinations of configured sub-indexes (vector kind flat/ivf/pq/ivfpq/hnsw, 3 metrics), documents with any subset of modalities, add/remove/flush histories; queries combining vector / 1-3 texts / filters / filter groups, k>=1, 4 fusions with random weights and K, 3 aggregations, nprobes, efSearch, data-derived thresholds, cutoffs; the hybrid answer is judged against the model composition of the sub-search answers Execute obtained (captured) and those are compared with separately issued sub-searches (option plumbing); non-trivial = a search returned results AND (both modalities contributed OR a metadata filter was active); distinct = distinct request streams",
 		NCases: func(tier string) int {
 			if tier == "thorough" {
-				return 4000
+				return 30000
 			}
 			return 300
 		},
